@@ -2,10 +2,14 @@ package main
 
 // Probes: every comparison between pd (core.BasicCluster / core.RegionsInfo) and the model is one
 // probe value that can be evaluated again later (witness shrinking, replay).
+//
+// A probe is answered in two steps: fetch (calls pd only, safe to run from reader goroutines while
+// a writer is active) and judge (compares the recorded answer with a model state, single-threaded).
 
 import (
 	"fmt"
 	"sort"
+	"strings"
 
 	"github.com/pingcap/kvproto/pkg/metapb"
 	"github.com/tikv/pd/server/core"
@@ -23,6 +27,7 @@ type probe struct {
 	ID     uint64      `json:"id,omitempty"`
 	Draws  int         `json:"draws,omitempty"`
 	MaxID  uint64      `json:"max_id,omitempty"`
+	Sub    int         `json:"sub,omitempty"` // selects one single call of a composite probe (1-based; 0 = all)
 }
 
 type failure struct {
@@ -33,22 +38,64 @@ type failure struct {
 	Want  interface{} `json:"want,omitempty"`
 }
 
+// answer is what pd returned for one probe.
+type answer struct {
+	Regs   []*core.RegionInfo
+	Nums   []int64
+	Start  hexkey // resolved range of an id-based probe
+	End    hexkey
+	Skip   bool   // probe not issued (inverted range, id not cached)
+	Err    string // error text (precheck)
+	Panic  string
+	Stack  string
+	Serial bool // fetched while nothing else was running (extra pd calls without the cluster lock allowed)
+}
+
+type counter map[string]int64
+
+func (c counter) add(k string, n int64) {
+	if c != nil {
+		c[k] += n
+	}
+}
+
+type held struct {
+	info  *core.RegionInfo
+	canon string
+}
+
 // world = pd objects under test + the model + observation counters.
 type world struct {
 	bc      *core.BasicCluster
 	ri      *core.RegionsInfo
 	m       *model
-	cnt     map[string]int64
-	probes  map[string]int64
+	cnt     counter
+	probes  counter
 	probeID uint64 // id used for synthetic probe regions (never a cached id)
+	conc    bool   // other goroutines are using bc: RegionsInfo-only getters are called under bc.RLock
+	held    []held // objects handed out earlier (replaced or removed since): must never change
+	heldN   int
 }
 
 func newWorld() *world {
 	bc := core.NewBasicCluster()
-	return &world{bc: bc, ri: bc.Regions, m: newModel(), cnt: map[string]int64{}, probes: map[string]int64{}, probeID: 1 << 40}
+	for s := uint64(1); s <= 8; s++ {
+		bc.PutStore(core.NewStoreInfo(&metapb.Store{Id: s}))
+	}
+	return &world{bc: bc, ri: bc.Regions, m: newModel(), cnt: counter{}, probes: counter{}, probeID: 1 << 40}
 }
 
 func (w *world) count(k string, n int64) { w.cnt[k] += n }
+
+// locked runs f with the cluster read lock held when other goroutines are active (the way code
+// outside package core reads RegionsInfo-only getters).
+func (w *world) locked(f func()) {
+	if w.conc {
+		w.bc.RLock()
+		defer w.bc.RUnlock()
+	}
+	f()
+}
 
 func descInfo(r *core.RegionInfo) string {
 	if r == nil {
@@ -67,6 +114,82 @@ func descInfo(r *core.RegionInfo) string {
 		s += fmt.Sprintf("p%d ", p.GetId())
 	}
 	return s
+}
+
+// canonInfo / canonSpec: order-independent content of a region as pd's object / the harness' spec
+// describe it (range, size, leader, peers with store and role, pending and down peers).
+func canonInfo(r *core.RegionInfo) string {
+	if r == nil {
+		return "<nil>"
+	}
+	var ps, pend, down, vs, ls []string
+	for _, p := range r.GetPeers() {
+		t := fmt.Sprintf("p%d@s%d", p.GetId(), p.GetStoreId())
+		if p.GetRole() == metapb.PeerRole_Learner {
+			t += "L"
+		}
+		ps = append(ps, t)
+	}
+	for _, p := range r.GetVoters() {
+		vs = append(vs, fmt.Sprintf("p%d@s%d", p.GetId(), p.GetStoreId()))
+	}
+	for _, p := range r.GetLearners() {
+		ls = append(ls, fmt.Sprintf("p%d@s%d", p.GetId(), p.GetStoreId()))
+	}
+	for _, p := range r.GetPendingPeers() {
+		pend = append(pend, fmt.Sprintf("p%d@s%d", p.GetId(), p.GetStoreId()))
+	}
+	for _, p := range r.GetDownPeers() {
+		down = append(down, fmt.Sprintf("p%d@s%d", p.GetPeer().GetId(), p.GetPeer().GetStoreId()))
+	}
+	sort.Strings(ps)
+	sort.Strings(vs)
+	sort.Strings(ls)
+	sort.Strings(pend)
+	sort.Strings(down)
+	lead := "-"
+	if l := r.GetLeader(); l != nil {
+		lead = fmt.Sprintf("p%d@s%d", l.GetId(), l.GetStoreId())
+	}
+	return fmt.Sprintf("r%d[%x,%x) size=%d leader=%s peers=%s voters=%s learners=%s pending=%s down=%s", r.GetID(), r.GetStartKey(), r.GetEndKey(),
+		r.GetApproximateSize(), lead, strings.Join(ps, ","), strings.Join(vs, ","), strings.Join(ls, ","), strings.Join(pend, ","), strings.Join(down, ","))
+}
+
+func canonSpec(sp *regionSpec) string {
+	var ps, pend, down, vs, ls []string
+	at := func(id uint64) string {
+		if p := sp.peer(id); p != nil {
+			return fmt.Sprintf("p%d@s%d", p.ID, p.Store)
+		}
+		return fmt.Sprintf("p%d@?", id)
+	}
+	for _, p := range sp.Peers {
+		t := fmt.Sprintf("p%d@s%d", p.ID, p.Store)
+		if p.Learner {
+			ls = append(ls, t)
+			t += "L"
+		} else {
+			vs = append(vs, t)
+		}
+		ps = append(ps, t)
+	}
+	for _, id := range sp.Pending {
+		pend = append(pend, at(id))
+	}
+	for _, id := range sp.Down {
+		down = append(down, at(id))
+	}
+	sort.Strings(ps)
+	sort.Strings(vs)
+	sort.Strings(ls)
+	sort.Strings(pend)
+	sort.Strings(down)
+	lead := "-"
+	if sp.peer(sp.Leader) != nil {
+		lead = at(sp.Leader)
+	}
+	return fmt.Sprintf("r%d[%x,%x) size=%d leader=%s peers=%s voters=%s learners=%s pending=%s down=%s", sp.ID, string(sp.Start), string(sp.End),
+		sp.Size, lead, strings.Join(ps, ","), strings.Join(vs, ","), strings.Join(ls, ","), strings.Join(pend, ","), strings.Join(down, ","))
 }
 
 func descInfos(rs []*core.RegionInfo) []string {
@@ -92,9 +215,15 @@ func descEntries(es []*entry) []string {
 	return out
 }
 
+// judger compares answers with one model state.
+type judger struct {
+	m   *model
+	cnt counter
+}
+
 // same: pd returned exactly the current information of the model's region (or both nothing).
 // A different object with identical content is indistinguishable for the statement and accepted.
-func (w *world) same(got *core.RegionInfo, want *entry) bool {
+func (j *judger) same(got *core.RegionInfo, want *entry) bool {
 	if want == nil {
 		return got == nil
 	}
@@ -104,19 +233,19 @@ func (w *world) same(got *core.RegionInfo, want *entry) bool {
 	if got == want.info {
 		return true
 	}
-	if descInfo(got) == descInfo(want.info) {
-		w.count("same_content_other_object", 1)
+	if got.GetID() == want.spec.ID && descInfo(got) == descInfo(want.info) {
+		j.cnt.add("same_content_other_object", 1)
 		return true
 	}
 	return false
 }
 
-func (w *world) sameSeq(got []*core.RegionInfo, want []*entry) bool {
+func (j *judger) sameSeq(got []*core.RegionInfo, want []*entry) bool {
 	if len(got) != len(want) {
 		return false
 	}
 	for i := range got {
-		if !w.same(got[i], want[i]) {
+		if !j.same(got[i], want[i]) {
 			return false
 		}
 	}
@@ -124,7 +253,7 @@ func (w *world) sameSeq(got []*core.RegionInfo, want []*entry) bool {
 }
 
 // sameSet compares as multisets (ordered by region id).
-func (w *world) sameSet(got []*core.RegionInfo, want []*entry) bool {
+func (j *judger) sameSet(got []*core.RegionInfo, want []*entry) bool {
 	if len(got) != len(want) {
 		return false
 	}
@@ -135,13 +264,28 @@ func (w *world) sameSet(got []*core.RegionInfo, want []*entry) bool {
 	}
 	g := append([]*core.RegionInfo(nil), got...)
 	x := append([]*entry(nil), want...)
-	sort.SliceStable(g, func(i, j int) bool { return g[i].GetID() < g[j].GetID() })
-	sort.SliceStable(x, func(i, j int) bool { return x[i].spec.ID < x[j].spec.ID })
-	return w.sameSeq(g, x)
+	sort.SliceStable(g, func(a, b int) bool { return g[a].GetID() < g[b].GetID() })
+	sort.SliceStable(x, func(a, b int) bool { return x[a].spec.ID < x[b].spec.ID })
+	return j.sameSeq(g, x)
 }
 
-func (w *world) probeRegion(s, e hexkey) *core.RegionInfo {
-	return core.NewRegionInfo(&metapb.Region{Id: w.probeID, StartKey: []byte(s), EndKey: []byte(e)}, nil)
+func (j *judger) inCands(got *core.RegionInfo, cands []*entry) int {
+	for i, c := range cands {
+		if got == c.info {
+			return i
+		}
+	}
+	for i, c := range cands {
+		if c.spec.ID == got.GetID() && j.same(got, c) {
+			return i
+		}
+	}
+	return -1
+}
+
+func (w *world) probeRegion(id uint64, s, e hexkey) *core.RegionInfo {
+	return core.NewRegionInfo(&metapb.Region{Id: id, StartKey: []byte(s), EndKey: []byte(e),
+		RegionEpoch: &metapb.RegionEpoch{ConfVer: 1 << 50, Version: 1 << 50}}, nil)
 }
 
 func keyRanges(rs [][2]hexkey) []core.KeyRange {
@@ -155,28 +299,36 @@ func keyRanges(rs [][2]hexkey) []core.KeyRange {
 	return out
 }
 
-func (w *world) randOne(role string, store uint64, ranges []core.KeyRange) *core.RegionInfo {
-	switch role {
-	case "leader":
-		return w.ri.RandLeaderRegion(store, ranges)
-	case "follower":
-		return w.ri.RandFollowerRegion(store, ranges)
-	case "learner":
-		return w.ri.RandLearnerRegion(store, ranges)
-	}
-	return w.ri.RandPendingRegion(store, ranges)
+func (w *world) randOne(role string, store uint64, ranges []core.KeyRange) (r *core.RegionInfo) {
+	w.locked(func() {
+		switch role {
+		case "leader":
+			r = w.ri.RandLeaderRegion(store, ranges)
+		case "follower":
+			r = w.ri.RandFollowerRegion(store, ranges)
+		case "learner":
+			r = w.ri.RandLearnerRegion(store, ranges)
+		default:
+			r = w.ri.RandPendingRegion(store, ranges)
+		}
+	})
+	return
 }
 
-func (w *world) randMany(role string, store uint64, ranges []core.KeyRange, n int) []*core.RegionInfo {
-	switch role {
-	case "leader":
-		return w.ri.RandLeaderRegions(store, ranges, n)
-	case "follower":
-		return w.ri.RandFollowerRegions(store, ranges, n)
-	case "learner":
-		return w.ri.RandLearnerRegions(store, ranges, n)
-	}
-	return w.ri.RandPendingRegions(store, ranges, n)
+func (w *world) randMany(role string, store uint64, ranges []core.KeyRange, n int) (r []*core.RegionInfo) {
+	w.locked(func() {
+		switch role {
+		case "leader":
+			r = w.ri.RandLeaderRegions(store, ranges, n)
+		case "follower":
+			r = w.ri.RandFollowerRegions(store, ranges, n)
+		case "learner":
+			r = w.ri.RandLearnerRegions(store, ranges, n)
+		default:
+			r = w.ri.RandPendingRegions(store, ranges, n)
+		}
+	})
+	return
 }
 
 func (w *world) randCluster(role string, store uint64, ranges []core.KeyRange) *core.RegionInfo {
@@ -191,268 +343,463 @@ func (w *world) randCluster(role string, store uint64, ranges []core.KeyRange) *
 	return w.bc.RandPendingRegion(store, ranges)
 }
 
-func inCands(w *world, got *core.RegionInfo, cands []*entry) int {
-	for i, c := range cands {
-		if got == c.info {
-			return i
-		}
-	}
-	for i, c := range cands {
-		if c.spec.ID == got.GetID() && w.same(got, c) {
-			return i
-		}
-	}
-	return -1
-}
+func inverted(s, e hexkey) bool { return e != "" && s >= e }
 
-// eval runs one probe against pd and the model. nil = agreement (or probe not judged).
-func (w *world) eval(p *probe) (f *failure) {
+// fetch asks pd. It touches neither the model nor any counter, so readers may call it while a
+// writer goroutine is active (w.conc set): everything then goes through BasicCluster's own locking.
+func (w *world) fetch(p *probe) (a *answer) {
+	a = &answer{Serial: !w.conc}
 	defer func() {
 		if x := recover(); x != nil {
-			f = &failure{Class: "panic:" + p.Kind, What: fmt.Sprintf("pd panicked while answering a %s query: %v", p.Kind, x), Probe: p, Got: tailStack()}
+			a.Panic, a.Stack = fmt.Sprint(x), tailStack()
 		}
 	}()
-	w.probes[p.Kind]++
-	m := w.m
-	fail := func(class, what string, got, want interface{}) *failure {
-		return &failure{Class: class, What: what, Probe: p, Got: got, Want: want}
+	bc, ri := w.bc, w.ri
+	resolve := func() *core.RegionInfo {
+		if p.ID != 0 {
+			r := bc.GetRegion(p.ID)
+			if r == nil {
+				a.Skip = true
+				return nil
+			}
+			a.Start, a.End = hexkey(r.GetStartKey()), hexkey(r.GetEndKey())
+			return r
+		}
+		a.Start, a.End = p.Start, p.End
+		if inverted(p.Start, p.End) {
+			a.Skip = true
+			return nil
+		}
+		return w.probeRegion(w.probeID, p.Start, p.End)
 	}
 	switch p.Kind {
 	case "counts":
-		n := len(m.es)
-		if g := w.bc.GetRegionCount(); g != n {
-			return fail("count:cached-regions", fmt.Sprintf("GetRegionCount=%d, model holds %d regions", g, n), g, n)
+		a.Nums = []int64{-1, -1, -1}
+		if p.Sub == 0 || p.Sub == 1 {
+			a.Nums[0] = int64(bc.GetRegionCount())
 		}
-		if g := w.ri.Len(); g != n {
-			return fail("count:cached-regions", fmt.Sprintf("RegionsInfo.Len=%d, model holds %d regions", g, n), g, n)
+		if p.Sub == 0 || p.Sub == 2 {
+			w.locked(func() { a.Nums[1], a.Nums[2] = int64(ri.Len()), int64(ri.TreeLen()) })
 		}
-		if g := w.ri.TreeLen(); g != n {
-			return fail("count:indexed-regions", fmt.Sprintf("TreeLen (indexed regions)=%d, cached regions=%d", g, n), g, n)
+	case "metacount":
+		a.Nums = []int64{int64(len(bc.GetMetaRegions()))}
+	case "getregion":
+		a.Regs = []*core.RegionInfo{bc.GetRegion(p.ID)}
+	case "allregions":
+		a.Regs = bc.GetRegions()
+	case "search":
+		a.Regs = []*core.RegionInfo{bc.SearchRegion([]byte(p.Key))}
+	case "searchprev":
+		a.Regs = []*core.RegionInfo{bc.SearchPrevRegion([]byte(p.Key))}
+	case "scan":
+		if inverted(p.Start, p.End) {
+			a.Skip = true
+			return
 		}
-	case "ids":
-		if g, n := len(w.bc.GetMetaRegions()), len(m.es); g != n {
-			return fail("count:cached-regions", fmt.Sprintf("len(GetMetaRegions)=%d, model holds %d regions", g, n), g, n)
+		a.Regs = bc.ScanRange([]byte(p.Start), []byte(p.End), p.Limit)
+	case "scaniter":
+		w.locked(func() {
+			ri.ScanRangeWithIterator([]byte(p.Start), func(r *core.RegionInfo) bool { a.Regs = append(a.Regs, r); return true })
+		})
+	case "overlaps":
+		if pr := resolve(); pr != nil {
+			a.Regs = bc.GetOverlaps(pr)
 		}
-		for id := uint64(1); id <= p.MaxID; id++ {
-			if g, x := w.bc.GetRegion(id), m.get(id); !w.same(g, x) {
-				return fail("lookup-by-id", fmt.Sprintf("GetRegion(%d) differs from the model", id), descInfo(g), descEntry(x))
+	case "adjacent":
+		if pr := resolve(); pr != nil {
+			x, y := bc.GetAdjacentRegions(pr)
+			a.Regs = []*core.RegionInfo{x, y}
+		}
+	case "precheck":
+		// the read-only half of heartbeat processing, with an epoch that is never stale
+		origin, err := bc.PreCheckPutRegion(w.probeRegion(p.ID, p.Start, p.End))
+		a.Regs = []*core.RegionInfo{origin}
+		if err != nil {
+			a.Err = err.Error()
+		}
+	case "avg":
+		a.Nums = []int64{bc.GetAverageRegionSize()}
+	case "store":
+		s := p.Store
+		a.Nums = []int64{-1, -1, -1, -1, -1, -1, -1, -1, -1, -1, -1}
+		get := []func() int64{
+			func() int64 { return int64(bc.GetStoreLeaderCount(s)) },
+			func() int64 { return int64(bc.GetStoreFollowerCount(s)) },
+			nil,
+			func() int64 { return int64(bc.GetStorePendingPeerCount(s)) },
+			func() int64 { return int64(bc.GetStoreRegionCount(s)) },
+			nil,
+			func() int64 { return bc.GetStoreLeaderRegionSize(s) },
+			nil, nil,
+			func() int64 { return bc.GetStoreRegionSize(s) },
+			nil,
+		}
+		for i, f := range get {
+			if f != nil && (p.Sub == 0 || p.Sub == i+1) {
+				a.Nums[i] = f()
 			}
 		}
-		if g := w.bc.GetRegions(); !w.sameSet(g, m.es) {
-			return fail("lookup-by-id", "GetRegions differs from the model's region set", descInfos(g), descEntries(m.es))
+		if p.Sub == 0 || p.Sub == 3 {
+			// one lock section: the RegionsInfo-only readers are mutually consistent
+			w.locked(func() {
+				a.Nums[2] = int64(ri.GetStoreLearnerCount(s))
+				a.Nums[5] = int64(ri.GetStoreRegionCount(s))
+				a.Nums[7] = ri.GetStoreFollowerRegionSize(s)
+				a.Nums[8] = ri.GetStoreLearnerRegionSize(s)
+				a.Nums[10] = ri.GetStoreRegionSize(s)
+			})
+		}
+	case "storeset":
+		a.Regs = bc.GetStoreRegions(p.Store)
+	case "storeinfo":
+		st := bc.GetStore(p.Store)
+		if st == nil {
+			a.Nums = []int64{0}
+			return
+		}
+		a.Nums = []int64{1, int64(st.GetLeaderCount()), int64(st.GetRegionCount()), int64(st.GetPendingPeerCount()), st.GetLeaderSize(), st.GetRegionSize()}
+	case "rand":
+		kr := keyRanges(p.Ranges)
+		a.Nums = []int64{0, 0} // number of single draws, number of elements of Rand*Regions
+		if p.Sub == 0 || p.Sub == 1 {
+			for i := 0; i < p.Draws; i++ {
+				a.Regs = append(a.Regs, w.randOne(p.Role, p.Store, kr))
+			}
+			a.Nums[0] = int64(p.Draws)
+		}
+		if p.Sub == 0 || p.Sub == 2 {
+			many := w.randMany(p.Role, p.Store, kr, 4)
+			a.Nums[1] = int64(len(many))
+			a.Regs = append(a.Regs, many...)
+		}
+		if p.Sub == 0 || p.Sub == 3 {
+			a.Regs = append(a.Regs, w.randCluster(p.Role, p.Store, kr))
+		}
+	default:
+		panic("harness: unknown probe kind " + p.Kind)
+	}
+	return
+}
+
+func storeRowNames() []string {
+	return []string{"store-leader-count", "store-follower-count", "store-learner-count", "store-pending-count", "store-region-count",
+		"store-region-count", "store-leader-size", "store-follower-size", "store-learner-size", "store-region-size", "store-region-size"}
+}
+
+// judge compares an answer with the model state j.m. nil = agreement (or probe not judged).
+func (j *judger) judge(p *probe, a *answer) *failure {
+	m := j.m
+	fail := func(class, what string, got, want interface{}) *failure {
+		return &failure{Class: class, What: what, Probe: p, Got: got, Want: want}
+	}
+	if a.Panic != "" {
+		return fail("panic:"+p.Kind, fmt.Sprintf("pd panicked while answering a %s query: %s", p.Kind, a.Panic), a.Stack, nil)
+	}
+	if a.Skip {
+		if p.ID == 0 {
+			j.cnt.add("skipped_ambiguous", 1) // empty / inverted interval: not defined by the statement
+		} else if m.get(p.ID) != nil {
+			return fail("lookup-by-id", fmt.Sprintf("GetRegion(%d) returned nothing, the model holds the region", p.ID), nil, descEntry(m.get(p.ID)))
+		}
+		return nil
+	}
+	one := func() *core.RegionInfo {
+		if len(a.Regs) == 0 {
+			return nil
+		}
+		return a.Regs[0]
+	}
+	switch p.Kind {
+	case "counts":
+		n := int64(len(m.es))
+		if a.Nums[0] != n && a.Nums[0] >= 0 {
+			return fail("count:cached-regions", fmt.Sprintf("GetRegionCount=%d, model holds %d regions", a.Nums[0], n), a.Nums[0], n)
+		}
+		if a.Nums[1] != n && a.Nums[1] >= 0 {
+			return fail("count:cached-regions", fmt.Sprintf("RegionsInfo.Len=%d, model holds %d regions", a.Nums[1], n), a.Nums[1], n)
+		}
+		if a.Nums[2] != n && a.Nums[2] >= 0 {
+			return fail("count:indexed-regions", fmt.Sprintf("TreeLen (indexed regions)=%d, cached regions=%d", a.Nums[2], n), a.Nums[2], n)
+		}
+	case "metacount":
+		if n := int64(len(m.es)); a.Nums[0] != n {
+			return fail("count:cached-regions", fmt.Sprintf("len(GetMetaRegions)=%d, model holds %d regions", a.Nums[0], n), a.Nums[0], n)
+		}
+	case "getregion":
+		if g, x := one(), m.get(p.ID); !j.same(g, x) {
+			return fail("lookup-by-id", fmt.Sprintf("GetRegion(%d) differs from the model", p.ID), descInfo(g), descEntry(x))
+		}
+	case "allregions":
+		if !j.sameSet(a.Regs, m.es) {
+			return fail("lookup-by-id", "GetRegions differs from the model's region set", descInfos(a.Regs), descEntries(m.es))
 		}
 	case "search":
-		g, x := w.bc.SearchRegion([]byte(p.Key)), m.search(p.Key)
-		if !w.same(g, x) {
+		g, x := one(), m.search(p.Key)
+		if !j.same(g, x) {
 			return fail("search-region", fmt.Sprintf("SearchRegion(%x) differs from a linear scan", string(p.Key)), descInfo(g), descEntry(x))
 		}
 		if x == nil {
-			w.count("search_in_hole", 1)
+			j.cnt.add("search_in_hole", 1)
 		}
 	case "searchprev":
-		g, x := w.bc.SearchPrevRegion([]byte(p.Key)), m.searchPrev(p.Key)
-		if !w.same(g, x) {
+		g, x := one(), m.searchPrev(p.Key)
+		if !j.same(g, x) {
 			return fail("search-prev-region", fmt.Sprintf("SearchPrevRegion(%x) differs from a linear scan", string(p.Key)), descInfo(g), descEntry(x))
 		}
 		if x != nil {
-			w.count("searchprev_nonnil", 1)
+			j.cnt.add("searchprev_nonnil", 1)
 		}
 	case "scan":
-		if p.End != "" && p.Start >= p.End {
-			w.count("skipped_ambiguous", 1) // empty / inverted interval: not defined by the statement
-			return nil
-		}
-		g, x := w.bc.ScanRange([]byte(p.Start), []byte(p.End), p.Limit), m.scan(p.Start, p.End, p.Limit)
-		if !w.sameSeq(g, x) {
+		x := m.scan(p.Start, p.End, p.Limit)
+		if !j.sameSeq(a.Regs, x) {
 			cl := "scan-range:unlimited"
 			if p.Limit > 0 {
 				cl = "scan-range:limited"
 			}
-			return fail(cl, fmt.Sprintf("ScanRange(%x,%x,%d) differs from a linear scan", string(p.Start), string(p.End), p.Limit), descInfos(g), descEntries(x))
+			return fail(cl, fmt.Sprintf("ScanRange(%x,%x,%d) differs from a linear scan", string(p.Start), string(p.End), p.Limit), descInfos(a.Regs), descEntries(x))
 		}
 		if p.Limit > 0 && len(x) == p.Limit {
-			w.count("scan_limit_reached", 1)
+			j.cnt.add("scan_limit_reached", 1)
 		}
 	case "scaniter":
-		var g []*core.RegionInfo
-		w.ri.ScanRangeWithIterator([]byte(p.Start), func(r *core.RegionInfo) bool { g = append(g, r); return true })
 		x := m.scan(p.Start, "", 0)
-		if !w.sameSeq(g, x) {
-			return fail("scan-range:iterator", fmt.Sprintf("ScanRangeWithIterator(%x) differs from a linear scan", string(p.Start)), descInfos(g), descEntries(x))
+		if !j.sameSeq(a.Regs, x) {
+			return fail("scan-range:iterator", fmt.Sprintf("ScanRangeWithIterator(%x) differs from a linear scan", string(p.Start)), descInfos(a.Regs), descEntries(x))
 		}
 	case "overlaps":
-		var pr *core.RegionInfo
-		s, e := p.Start, p.End
+		s, e := a.Start, a.End
 		if p.ID != 0 {
-			x := m.get(p.ID)
-			if x == nil {
-				return nil
+			// the argument was the cached region of that id at fetch time: it must be the model's one
+			if x := m.get(p.ID); x == nil || x.spec.Start != s || x.spec.End != e {
+				return fail("lookup-by-id", fmt.Sprintf("GetRegion(%d) returned range [%x,%x), the model differs", p.ID, string(s), string(e)), nil, descEntry(x))
 			}
-			pr, s, e = x.info, x.spec.Start, x.spec.End
-		} else {
-			if e != "" && s >= e {
-				w.count("skipped_ambiguous", 1)
-				return nil
-			}
-			pr = w.probeRegion(s, e)
 		}
-		g, x := w.bc.GetOverlaps(pr), m.overlaps(s, e)
-		if !w.sameSet(g, x) {
-			return fail("get-overlaps", fmt.Sprintf("GetOverlaps([%x,%x)) differs from a linear scan", string(s), string(e)), descInfos(g), descEntries(x))
+		x := m.overlaps(s, e)
+		if !j.sameSet(a.Regs, x) {
+			return fail("get-overlaps", fmt.Sprintf("GetOverlaps([%x,%x)) differs from a linear scan", string(s), string(e)), descInfos(a.Regs), descEntries(x))
 		}
 		if len(x) > 1 {
-			w.count("overlaps_multi", 1)
+			j.cnt.add("overlaps_multi", 1)
 		}
 	case "adjacent":
-		var pr *core.RegionInfo
-		s, e := p.Start, p.End
+		s, e := a.Start, a.End
 		if p.ID != 0 {
-			x := m.get(p.ID)
-			if x == nil {
-				return nil
+			if x := m.get(p.ID); x == nil || x.spec.Start != s || x.spec.End != e {
+				return fail("lookup-by-id", fmt.Sprintf("GetRegion(%d) returned range [%x,%x), the model differs", p.ID, string(s), string(e)), nil, descEntry(x))
 			}
-			pr, s, e = x.info, x.spec.Start, x.spec.End
 		} else {
-			if e != "" && s >= e {
-				w.count("skipped_ambiguous", 1)
-				return nil
-			}
 			// "adjacent" is only well defined for a probe that is a cached range or lies in a hole
 			ov := m.overlaps(s, e)
 			exact := len(ov) == 1 && ov[0].spec.Start == s && ov[0].spec.End == e
 			if len(ov) > 0 && !exact {
-				w.count("skipped_ambiguous", 1)
+				j.cnt.add("skipped_ambiguous", 1)
 				return nil
 			}
-			pr = w.probeRegion(s, e)
 		}
-		gp, gn := w.bc.GetAdjacentRegions(pr)
+		gp, gn := a.Regs[0], a.Regs[1]
 		xp, xn := m.adjacent(s, e)
-		if !w.same(gp, xp) || !w.same(gn, xn) {
+		if !j.same(gp, xp) || !j.same(gn, xn) {
 			return fail("adjacent-regions", fmt.Sprintf("GetAdjacentRegions([%x,%x)) differs from a linear scan", string(s), string(e)),
 				[]string{descInfo(gp), descInfo(gn)}, []string{descEntry(xp), descEntry(xn)})
 		}
 		if xp != nil || xn != nil {
-			w.count("adjacent_nonnil", 1)
+			j.cnt.add("adjacent_nonnil", 1)
+		}
+	case "precheck":
+		if a.Err != "" {
+			j.cnt.add("precheck_errors_not_judged", 1) // admission decisions belong to C06
+			return nil
+		}
+		if g, x := one(), m.get(p.ID); !j.same(g, x) {
+			return fail("lookup-by-id", fmt.Sprintf("PreCheckPutRegion(id %d) returned an origin that differs from the model's region", p.ID), descInfo(g), descEntry(x))
 		}
 	case "avg":
 		var want int64
 		if len(m.es) > 0 {
 			want = m.totalSize() / int64(len(m.es))
 		}
-		if g := w.bc.GetAverageRegionSize(); g != want {
+		if g := a.Nums[0]; g != want {
 			return fail("average-region-size", fmt.Sprintf("GetAverageRegionSize=%d, sum of sizes / regions = %d/%d = %d", g, m.totalSize(), len(m.es), want), g, want)
 		}
 	case "store":
 		st := m.stat(p.Store)
-		s := p.Store
-		type row struct {
-			class string
-			got   int64
-			want  int64
-		}
-		rows := []row{
-			{"store-leader-count", int64(w.bc.GetStoreLeaderCount(s)), int64(st.LeaderCount)},
-			{"store-follower-count", int64(w.bc.GetStoreFollowerCount(s)), int64(st.FollowerCount)},
-			{"store-learner-count", int64(w.ri.GetStoreLearnerCount(s)), int64(st.LearnerCount)},
-			{"store-pending-count", int64(w.bc.GetStorePendingPeerCount(s)), int64(st.PendingCount)},
-			{"store-region-count", int64(w.bc.GetStoreRegionCount(s)), int64(st.LeaderCount + st.FollowerCount + st.LearnerCount)},
-			{"store-region-count", int64(w.ri.GetStoreRegionCount(s)), int64(st.LeaderCount + st.FollowerCount + st.LearnerCount)},
-			{"store-leader-size", w.bc.GetStoreLeaderRegionSize(s), st.LeaderSize},
-			{"store-follower-size", w.ri.GetStoreFollowerRegionSize(s), st.FollowerSize},
-			{"store-learner-size", w.ri.GetStoreLearnerRegionSize(s), st.LearnerSize},
-			{"store-region-size", w.bc.GetStoreRegionSize(s), st.LeaderSize + st.FollowerSize + st.LearnerSize},
-			{"store-region-size", w.ri.GetStoreRegionSize(s), st.LeaderSize + st.FollowerSize + st.LearnerSize},
-		}
-		for _, r := range rows {
-			if r.got != r.want {
-				return fail(r.class, fmt.Sprintf("store %d: %s is %d, the current regions imply %d", s, r.class, r.got, r.want), r.got, r.want)
+		rc, rs := int64(st.LeaderCount+st.FollowerCount+st.LearnerCount), st.LeaderSize+st.FollowerSize+st.LearnerSize
+		want := []int64{int64(st.LeaderCount), int64(st.FollowerCount), int64(st.LearnerCount), int64(st.PendingCount), rc, rc,
+			st.LeaderSize, st.FollowerSize, st.LearnerSize, rs, rs}
+		names := storeRowNames()
+		for i := range want {
+			if a.Nums[i] != want[i] && a.Nums[i] >= 0 {
+				return fail(names[i], fmt.Sprintf("store %d: %s is %d, the current regions imply %d", p.Store, names[i], a.Nums[i], want[i]), a.Nums[i], want[i])
 			}
 		}
 		if st.PendingCount > 0 {
-			w.count("store_with_pending", 1)
+			j.cnt.add("store_with_pending", 1)
 		}
 	case "storeset":
 		want := m.storeRegions(p.Store)
-		if g := w.bc.GetStoreRegions(p.Store); !w.sameSet(g, want) {
-			return fail("store-regions-set", fmt.Sprintf("GetStoreRegions(%d) differs from the regions with a peer on the store", p.Store), descInfos(g), descEntries(want))
+		if !j.sameSet(a.Regs, want) {
+			return fail("store-regions-set", fmt.Sprintf("GetStoreRegions(%d) differs from the regions with a peer on the store", p.Store), descInfos(a.Regs), descEntries(want))
+		}
+	case "storeinfo":
+		// the statistics published into the store record (what schedulers read) after the last
+		// status refresh of that store
+		pub, ok := m.sinfo[p.Store]
+		if a.Nums[0] == 0 {
+			if ok {
+				return fail("store-record-statistics", fmt.Sprintf("store %d has published statistics but GetStore returns nothing", p.Store), nil, pub)
+			}
+			return nil
+		}
+		want := []int64{1, int64(pub.LeaderCount), int64(pub.LeaderCount + pub.FollowerCount + pub.LearnerCount), int64(pub.PendingCount),
+			pub.LeaderSize, pub.LeaderSize + pub.FollowerSize + pub.LearnerSize}
+		names := []string{"", "leader count", "region count", "pending peer count", "leader size", "region size"}
+		for i := 1; i < len(want); i++ {
+			if a.Nums[i] != want[i] {
+				return fail("store-record-statistics", fmt.Sprintf("store %d: %s in the store record is %d, the statistics published at the last refresh were %d", p.Store, names[i], a.Nums[i], want[i]), a.Nums, want)
+			}
+		}
+		if ok {
+			j.cnt.add("storeinfo_published_checked", 1)
 		}
 	case "rand":
 		cands := m.candidates(p.Role, p.Store, p.Ranges)
-		kr := keyRanges(p.Ranges)
-		judge := func(g *core.RegionInfo, via string) *failure {
-			w.count("rand_draws", 1)
+		ndraws, nmany := int(a.Nums[0]), int(a.Nums[1])
+		if nmany > 4 {
+			return fail("rand-pick-outside-candidates:"+p.Role, "Rand*Regions(n=4) returned more than 4 regions", nmany, 4)
+		}
+		for i, g := range a.Regs {
+			via := "Rand*Region"
+			inMany := i >= ndraws && i < ndraws+nmany
+			if inMany {
+				via = "Rand*Regions"
+			} else if i >= ndraws+nmany {
+				via = "BasicCluster.Rand*Region"
+			}
+			j.cnt.add("rand_draws", 1)
 			if g == nil {
-				w.count("rand_draws_nil", 1)
-				return nil
-			}
-			if inCands(w, g, cands) < 0 {
-				return fail("rand-pick-outside-candidates:"+p.Role, fmt.Sprintf("%s for store %d returned a region that is not a %s candidate within the ranges", via, p.Store, p.Role), descInfo(g), descEntries(cands))
-			}
-			return nil
-		}
-		for i := 0; i < p.Draws; i++ {
-			if f := judge(w.randOne(p.Role, p.Store, kr), "Rand*Region"); f != nil {
-				return f
-			}
-		}
-		many := w.randMany(p.Role, p.Store, kr, 4)
-		if len(many) > 4 {
-			return fail("rand-pick-outside-candidates:"+p.Role, "Rand*Regions(n=4) returned more than 4 regions", len(many), 4)
-		}
-		for _, g := range many {
-			if g == nil {
-				return fail("rand-pick-outside-candidates:"+p.Role, "Rand*Regions returned a nil element", nil, nil)
-			}
-			if f := judge(g, "Rand*Regions"); f != nil {
-				return f
-			}
-		}
-		if f := judge(w.randCluster(p.Role, p.Store, kr), "BasicCluster.Rand*Region"); f != nil {
-			return f
-		}
-		if len(cands) == 0 {
-			w.count("rand_empty_candidate_sets", 1)
-		}
-	case "randcover":
-		cands := m.candidates(p.Role, p.Store, p.Ranges)
-		if len(cands) == 0 || len(cands) > 8 {
-			return nil
-		}
-		kr := keyRanges(p.Ranges)
-		seen := make([]bool, len(cands))
-		left := len(cands)
-		max := 400 * len(cands)
-		draws := 0
-		for draws < max && left > 0 {
-			draws++
-			g := w.randOne(p.Role, p.Store, kr)
-			if g == nil {
+				if inMany {
+					return fail("rand-pick-outside-candidates:"+p.Role, "Rand*Regions returned a nil element", nil, nil)
+				}
+				j.cnt.add("rand_draws_nil", 1)
 				continue
 			}
-			i := inCands(w, g, cands)
-			if i < 0 {
-				return fail("rand-pick-outside-candidates:"+p.Role, fmt.Sprintf("Rand*Region for store %d returned a region that is not a %s candidate within the ranges", p.Store, p.Role), descInfo(g), descEntries(cands))
-			}
-			if !seen[i] {
-				seen[i] = true
-				left--
+			if j.inCands(g, cands) < 0 {
+				return fail("rand-pick-outside-candidates:"+p.Role, fmt.Sprintf("%s for store %d returned a region that is not a %s candidate within the ranges", via, p.Store, p.Role), descInfo(g), descEntries(cands))
 			}
 		}
-		w.count("rand_draws", int64(draws))
-		w.count("rand_coverage_sets", 1)
-		w.count(fmt.Sprintf("rand_coverage_sets_size_%d", len(cands)), 1)
-		if left > 0 {
-			var missing []*entry
-			for i, s := range seen {
-				if !s {
-					missing = append(missing, cands[i])
-				}
-			}
-			return fail("rand-pick-candidate-never-picked:"+p.Role, fmt.Sprintf("%d of %d %s candidates of store %d were never picked in %d draws", left, len(cands), p.Role, p.Store, draws), descEntries(missing), descEntries(cands))
+		if len(cands) == 0 {
+			j.cnt.add("rand_empty_candidate_sets", 1)
 		}
 	default:
-		panic("harness: unknown probe kind " + p.Kind)
+		return fail("harness:unknown-probe", "harness: unknown probe kind "+p.Kind, nil, nil)
+	}
+	return nil
+}
+
+// eval runs one probe against pd and the current model (sequential use).
+func (w *world) eval(p *probe) *failure {
+	w.probes[p.Kind]++
+	j := &judger{m: w.m, cnt: w.cnt}
+	fail := func(class, what string, got, want interface{}) *failure {
+		return &failure{Class: class, What: what, Probe: p, Got: got, Want: want}
+	}
+	switch p.Kind {
+	case "ids":
+		// composite: lookup of every id, the whole set, the cloned metas, and the content of every
+		// cached object and of every object handed out earlier (read-only once created)
+		for id := uint64(1); id <= p.MaxID; id++ {
+			q := &probe{Kind: "getregion", ID: id}
+			if f := j.judge(q, w.fetch(q)); f != nil {
+				return f
+			}
+		}
+		for _, k := range []string{"allregions", "metacount"} {
+			q := &probe{Kind: k}
+			if f := j.judge(q, w.fetch(q)); f != nil {
+				return f
+			}
+		}
+		fallthrough
+	case "content":
+		for _, e := range w.m.es {
+			if p.ID != 0 && e.spec.ID != p.ID {
+				continue
+			}
+			if g, x := canonInfo(e.info), canonSpec(e.spec); g != x {
+				return fail("cached-region-object-changed", fmt.Sprintf("the cached object of region %d no longer says what was put", e.spec.ID), g, x)
+			}
+		}
+		for _, h := range w.held {
+			if h.info == nil {
+				continue
+			}
+			if g := canonInfo(h.info); g != h.canon {
+				return fail("returned-region-object-changed", "a region object obtained earlier from the cache was modified afterwards (regions are read-only once created)", g, h.canon)
+			}
+		}
+		w.cnt.add("content_checks", 1)
+		return nil
+	case "randcover":
+		return w.randcover(p)
+	}
+	return j.judge(p, w.fetch(p))
+}
+
+func (w *world) hold(info *core.RegionInfo) {
+	if info == nil {
+		return
+	}
+	h := held{info: info, canon: canonInfo(info)}
+	if len(w.held) < 48 {
+		w.held = append(w.held, h)
+		return
+	}
+	w.held[w.heldN%48] = h
+	w.heldN++
+}
+
+func (w *world) randcover(p *probe) (f *failure) {
+	defer func() {
+		if x := recover(); x != nil {
+			f = &failure{Class: "panic:rand", What: fmt.Sprintf("pd panicked while answering a rand query: %v", x), Probe: p, Got: tailStack()}
+		}
+	}()
+	j := &judger{m: w.m, cnt: w.cnt}
+	cands := w.m.candidates(p.Role, p.Store, p.Ranges)
+	if len(cands) == 0 || len(cands) > 8 {
+		return nil
+	}
+	kr := keyRanges(p.Ranges)
+	seen := make([]bool, len(cands))
+	left := len(cands)
+	max := 400 * len(cands)
+	draws := 0
+	for draws < max && left > 0 {
+		draws++
+		g := w.randOne(p.Role, p.Store, kr)
+		if g == nil {
+			continue
+		}
+		i := j.inCands(g, cands)
+		if i < 0 {
+			return &failure{Class: "rand-pick-outside-candidates:" + p.Role, What: fmt.Sprintf("Rand*Region for store %d returned a region that is not a %s candidate within the ranges", p.Store, p.Role), Probe: p, Got: descInfo(g), Want: descEntries(cands)}
+		}
+		if !seen[i] {
+			seen[i] = true
+			left--
+		}
+	}
+	w.count("rand_draws", int64(draws))
+	w.count("rand_coverage_sets", 1)
+	w.count(fmt.Sprintf("rand_coverage_sets_size_%d", len(cands)), 1)
+	if left > 0 {
+		var missing []*entry
+		for i, s := range seen {
+			if !s {
+				missing = append(missing, cands[i])
+			}
+		}
+		return &failure{Class: "rand-pick-candidate-never-picked:" + p.Role, What: fmt.Sprintf("%d of %d %s candidates of store %d were never picked in %d draws", left, len(cands), p.Role, p.Store, draws), Probe: p, Got: descEntries(missing), Want: descEntries(cands)}
 	}
 	return nil
 }
